@@ -2393,6 +2393,14 @@ impl Connection {
                 if number.is_some_and(is_duplicate) {
                     debug!("discarding possible duplicate packet");
                     return;
+                } else if number.is_none() && !(self.side.is_client() && self.state.is_handshake())
+                {
+                    // Retry and Version Negotiation packets carry no packet protection. They mean
+                    // something only to a client that is still handshaking; anyone can forge one,
+                    // so nowhere else may they reset timers, be parsed for frames or end the
+                    // connection.
+                    trace!("discarding unprotected packet outside of the client's handshake");
+                    return;
                 } else if self.state.is_handshake() && packet.header.is_short() {
                     // TODO: SHOULD buffer these to improve reordering tolerance.
                     trace!("dropping short packet during handshake");
